@@ -210,5 +210,12 @@ def rules(ctx, db):
                    "the buffer ring is unregistered from the kernel (successfully) before its memory is unmapped", f)
 
 
+def rules_all(ctx, db):
+    rules(ctx, db)
+    if ctx.tier == "thorough" and ctx.cfg == "A":
+        from .. import witness
+        witness.obligations(ctx, "C07")
+
+
 def check(tier):
-    return engine.run("C07", tier, rules, NOT_DECIDED, [])
+    return engine.run("C07", tier, rules_all, NOT_DECIDED, [])
